@@ -63,7 +63,7 @@ impl Property for C01 {
         with_multi((strat::ring_cfg(3), proptest::collection::vec(strat::step(strat::kind_memory().boxed(), 2, 5), 0..60)).prop_map(|(cfg, steps)| History { cfg, steps, teardown: None }).boxed(), 1)
     }
     fn cases(tier: Tier) -> u32 {
-        tier.pick(20_000, 400_000)
+        tier.pick(20_000, 2_000_000)
     }
     fn run(case: &HCase, ctx: &mut Ctx) {
         let case = match case {
@@ -92,7 +92,7 @@ impl Property for C02 {
         with_multi((strat::ring_cfg(4), proptest::collection::vec(strat::step(strat::kind_valued().boxed(), 1, 1), 0..70)).prop_map(|(cfg, steps)| History { cfg, steps, teardown: None }).boxed(), 1)
     }
     fn cases(tier: Tier) -> u32 {
-        tier.pick(20_000, 400_000)
+        tier.pick(20_000, 2_000_000)
     }
     fn run(case: &HCase, ctx: &mut Ctx) {
         let case = match case {
@@ -140,7 +140,7 @@ impl Property for C03 {
         prop_oneof![6 => seq, 3 => sched, 1 => batch, 2 => multi].boxed()
     }
     fn cases(tier: Tier) -> u32 {
-        tier.pick(20_000, 400_000)
+        tier.pick(20_000, 2_000_000)
     }
     fn run(case: &C03Case, ctx: &mut Ctx) {
         let case = match case {
@@ -184,7 +184,7 @@ impl Property for C06 {
         }
     }
     fn cases(tier: Tier) -> u32 {
-        tier.pick(20_000, 400_000)
+        tier.pick(20_000, 2_000_000)
     }
     fn run(case: &HCase, ctx: &mut Ctx) {
         let case = match case {
@@ -226,7 +226,7 @@ impl Property for C09 {
         with_multi((strat::ring_cfg(3), proptest::collection::vec(strat::step(strat::kind_basic().boxed(), 3, 1), 0..70)).prop_map(|(cfg, steps)| History { cfg, steps, teardown: None }).boxed(), 1)
     }
     fn cases(tier: Tier) -> u32 {
-        tier.pick(20_000, 400_000)
+        tier.pick(20_000, 2_000_000)
     }
     fn level() -> &'static str {
         "fault_enumeration"
@@ -283,7 +283,7 @@ impl Property for C12 {
         prop_oneof![6 => general, 1 => overflow].boxed()
     }
     fn cases(tier: Tier) -> u32 {
-        tier.pick(20_000, 400_000)
+        tier.pick(20_000, 2_000_000)
     }
     fn run(case: &History, ctx: &mut Ctx) {
         let feats = interp::execute(case, Oracles { c12: true, ..Oracles::default() }, ctx);
